@@ -619,8 +619,14 @@ def run_check(ctx):
     ctx.notes["finding_classes"] = class_stats
     ctx.notes["parse_file_runs"] = rp.nruns
     ctx.notes["domain_violations"] = n_viol
-    step = max(1, len(domain) // 5)
-    for cid, k in domain[::step][:5]:
+    seen_fam = {}
+    for cid, k in domain[::97]:        # one replayed, non-trivial case per family
+        rec = recs[cid]
+        if rec["f"] not in seen_fam and rec["o"][k]["t"] != rec["p"][k]["toks"] and len(rec["o"][k]["t"]) >= 3:
+            seen_fam[rec["f"]] = 1
+            ctx.sample(dict(program=describe(rec, k), expected=expected(rec["o"][k]), family=rec["f"]), limit=8)
+    if not ctx.cov["samples"] and domain:
+        cid, k = domain[0]
         ctx.sample(dict(program=describe(recs[cid], k), expected=expected(recs[cid]["o"][k]), family=recs[cid]["f"]))
     ctx.assumptions += [
         "gcc -E -P -x c++ -std=gnu++20 is a conforming preprocessor on the enumerated grammar (it validates the spec on every line)",
